@@ -63,6 +63,13 @@ var scratchRoot string
 
 func scratch() string {
 	if scratchRoot == "" {
+		if d := os.Getenv("SIM_SCRATCH_ROOT"); d != "" {
+			// bin/check hands every worker a directory below its own scratch
+			// directory, which it removes whatever happens to the worker
+			scratchRoot = d
+			_ = os.MkdirAll(scratchRoot, 0o777)
+			return scratchRoot
+		}
 		base := "/dev/shm"
 		if _, err := os.Stat(base); err != nil {
 			base = os.TempDir()
@@ -84,6 +91,11 @@ func runOne(t *testing.T, def *CheckDef, tier string, seed int64, tape *Tape, ke
 		fmt.Println("KEEP", dir)
 	}
 	r := newRun(def.ID, tier, seed, tape, dir)
+	defer func() {
+		if r.bigDir != "" {
+			os.RemoveAll(r.bigDir)
+		}
+	}()
 	curRun.Store(r)
 	defer curRun.Store(nil)
 	// The collector is off while a bubble runs: a GC cycle makes the running
@@ -566,14 +578,19 @@ func watchdog() {
 	limit := time.Duration(envInt("SIM_WATCHDOG_S", 120)) * time.Second
 	last := progress.Load()
 	lastT := time.Now()
+	lastCPU := cpuTime()
 	for {
 		time.Sleep(2 * time.Second)
 		cur := progress.Load()
 		if cur != last {
-			last, lastT = cur, time.Now()
+			last, lastT, lastCPU = cur, time.Now(), cpuTime()
 			continue
 		}
-		if time.Since(lastT) > limit {
+		// The limit is counted in CPU time of this process, so that a machine
+		// that is busy with other work (or waiting for a disk) does not look
+		// like a hang; a process that is blocked without using any CPU is given
+		// five times the limit on the wall clock.
+		if w := time.Since(lastT); w > limit && (cpuTime()-lastCPU > limit || w > 5*limit) {
 			buf := make([]byte, 4<<20)
 			n := runtime.Stack(buf, true)
 			dump := string(buf[:n])
@@ -594,6 +611,15 @@ func watchdog() {
 			os.Exit(2)
 		}
 	}
+}
+
+// cpuTime is the user+system CPU time this process has consumed.
+func cpuTime() time.Duration {
+	var ru syscall.Rusage
+	if err := syscall.Getrusage(syscall.RUSAGE_SELF, &ru); err != nil {
+		return 0
+	}
+	return time.Duration(ru.Utime.Nano() + ru.Stime.Nano())
 }
 
 // sutSpinning looks for a running/runnable bubble goroutine whose innermost
